@@ -1049,3 +1049,134 @@ RULES.setdefault("C16", []).append(Rule("C16.R14", "prov.read tries every format
                                         "the destination kinds agree on the text; detection reaches every format"))
 RULES.setdefault("C17", []).append(Rule("C17.R7", "serializers convert text to bytes with explicit UTF-8 on whole contents (shared with C16.R2)", 8, c16_r2, "F-SIB",
                                         "the named file holds the complete UTF-8 serialisation"))
+
+
+# ------------------------------------------------------------------------------------------ write side: no locale-dependent text layer
+def locale_text_layer_rule(ctx: Ctx, rule):
+    """Every serializer produces UTF-8 whatever the process locale is: on the write paths (each serializer's serialize(), and
+    ProvDocument.serialize, with the helpers of their modules) no text layer is put over a byte destination with the *default*
+    encoding - open(.., "w") / os.fdopen(fd, "w") / io.TextIOWrapper(..) / codecs.open(..) need encoding="utf-8" (or the file is
+    opened in binary mode)."""
+    res = RuleResult()
+    reg = registry_classes(ctx)
+    roots = [ctx.p.lookup_method(cls, "serialize") for cls in reg.values()] + [DOC + ".serialize"]
+    n = 0
+    seen = set()
+    for rq in roots:
+        for q in ctx.helper_closure(rq, 2):
+            if q in seen:
+                continue
+            seen.add(q)
+            fi = ctx.p.functions.get(q)
+            if fi is None or isinstance(fi.node, ast.Lambda) or not fi.module.startswith("prov"):
+                continue
+            for c in calls_in(fi.node):
+                nm = call_name(c)
+                r = ctx.p.resolve_dotted(fi.module, c.func) if dotted(c.func) else None
+                origin = r[1] if r and r[0] == "ext" else ""
+                kind = None
+                if nm == "open" and origin in ("", "io.open", "builtins.open", "codecs.open") or origin in ("os.fdopen",) or nm == "fdopen":
+                    m = c.args[1] if len(c.args) > 1 else next((k.value for k in c.keywords if k.arg == "mode"), None)
+                    mode = m.value if isinstance(m, ast.Constant) else ("r" if m is None else "?")
+                    if "b" in str(mode) or mode == "?":
+                        continue
+                    if not any(ch in str(mode) for ch in "wax+"):
+                        continue  # a read: judged by C16.R4
+                    kind = "%s(.., %r)" % (nm, mode)
+                elif origin == "io.TextIOWrapper" or nm == "TextIOWrapper":
+                    kind = "io.TextIOWrapper(..)"
+                elif origin in ("codecs.getwriter", "codecs.EncodedFile"):
+                    kind = origin
+                if kind is None:
+                    continue
+                n += 1
+                enc = next((k.value for k in c.keywords if k.arg == "encoding"), None)
+                if enc is None and kind.startswith("io.TextIOWrapper") and len(c.args) > 1:
+                    enc = c.args[1]
+                if enc is None and origin.startswith("codecs.") and c.args:
+                    enc = c.args[0] if origin != "codecs.EncodedFile" else None
+                ev = enc.value if isinstance(enc, ast.Constant) else None
+                ok = isinstance(ev, str) and ev.lower().replace("-", "").replace("_", "") == "utf8"
+                res.ob("%s: %s with encoding %s: UTF-8 whatever the locale: %s" % (short(q) if q.count(".") > 2 else q, kind, norm(enc) if enc is not None else "left to the locale", ok))
+                if not ok:
+                    res.fail(rule.id, "locale-dependent-text-layer::%s" % q, ctx.loc(q, c),
+                             '%s writes through %s without encoding="utf-8": the bytes depend on the process locale' % (short(q) if q.count(".") > 2 else q, kind),
+                             "LC_ALL=C (or a Latin-1 locale) and a non-ASCII value: serialising to a binary stream or a file path raises UnicodeEncodeError or writes bytes the reader rejects; to a string it works")
+    res.ob("text layers opened on write paths: %d" % n, nontrivial=False)
+    return res
+
+
+for _p, _r, _d in (("C16", "C16.R16", "the same bytes reach a binary stream, a path and (encoded) a text stream in every locale"), ("C17", "C17.R8", "the file written to a path holds UTF-8 in every locale"),
+                   ("C01", "C01.R19", "the PROV-JSON bytes do not depend on the process locale, the reader decodes UTF-8"), ("C02", "C02.R20", "the PROV-XML bytes do not depend on the process locale")):
+    RULES.setdefault(_p, []).append(Rule(_r, "no text layer with the locale's default encoding on a write path", 0, locale_text_layer_rule, "F-PATH", _d))
+
+
+# ------------------------------------------------------------------------------------------ readers: current position, and the empty document
+def reader_manners_rule(ctx: Ctx, rule):
+    """(a) A reader consumes its source from the position the caller left it at: the caller's stream (a parameter, or an alias of
+    one) is never re-positioned to an absolute offset - `seek(0)` after a peek re-reads what the caller had already consumed.
+    `seek(<saved tell()>)` is fine.
+    (b) The empty document is a document: a reader does not raise because what it parsed holds nothing (`if len(parsed) == 0:
+    raise`), its own writer produces exactly that for a document without records."""
+    res = RuleResult()
+    reg = registry_classes(ctx)
+    roots = [ctx.p.lookup_method(cls, "deserialize") for cls in reg.values()] + [DOC + ".deserialize", "prov.read"]
+    seen, n_seek, n_empty = set(), 0, 0
+    for rq in roots:
+        if rq is None or rq not in ctx.p.functions:
+            continue
+        for q in ctx.helper_closure(rq, 2):
+            if q in seen:
+                continue
+            seen.add(q)
+            fi = ctx.p.functions.get(q)
+            if fi is None or isinstance(fi.node, ast.Lambda) or not fi.module.startswith("prov") or fi.module == M and fi.cls and not q.startswith(DOC + "."):
+                continue
+            params = set(fi.params) - {"self"}
+            aliases = set(params)
+            for a in walk_function(fi.node):
+                if isinstance(a, ast.Assign) and isinstance(a.value, ast.Name) and a.value.id in aliases:
+                    aliases |= {t.id for t in a.targets if isinstance(t, ast.Name)}
+            for c in calls_in(fi.node):
+                if isinstance(c.func, ast.Attribute) and c.func.attr == "seek" and isinstance(c.func.value, ast.Name) and c.func.value.id in aliases and c.args:
+                    n_seek += 1
+                    off = c.args[0]
+                    absolute = isinstance(off, ast.Constant) and (len(c.args) == 1 or (isinstance(c.args[1], ast.Constant) and c.args[1].value == 0) or norm(c.args[1]).endswith("SEEK_SET"))
+                    res.ob("%s: %s on the caller's stream: absolute offset: %s" % (short(q) if q.count(".") > 2 else q, norm(c), absolute))
+                    if absolute:
+                        res.fail(rule.id, "source-repositioned::%s" % q, ctx.loc(q, c),
+                                 "%s moves the caller's stream to the absolute offset %s: what the caller had consumed before handing the stream over is read again" % (short(q) if q.count(".") > 2 else q, norm(off)),
+                                 "two documents written one after the other into one stream, the second read back from where it starts: the reader returns the records of both (or fails on the first one's text)")
+            if q.startswith(DOC + ".") or q == "prov.read":
+                continue
+            local_names = {t.id for a in walk_function(fi.node) if isinstance(a, ast.Assign) for t in a.targets if isinstance(t, ast.Name)}
+            for t in walk_function(fi.node):
+                if not (isinstance(t, ast.If) and any(isinstance(x, ast.Raise) for x in t.body)):
+                    continue
+                tt = t.test
+                nm = None
+                if isinstance(tt, ast.UnaryOp) and isinstance(tt.op, ast.Not):
+                    inner = tt.operand
+                    if isinstance(inner, ast.Name):
+                        nm = inner.id
+                    elif isinstance(inner, ast.Call) and call_name(inner) == "len" and inner.args and isinstance(inner.args[0], ast.Name):
+                        nm = inner.args[0].id
+                elif isinstance(tt, ast.Compare) and len(tt.ops) == 1 and isinstance(tt.left, ast.Call) and call_name(tt.left) == "len" and tt.left.args and isinstance(tt.left.args[0], ast.Name) \
+                        and isinstance(tt.comparators[0], ast.Constant) and ((isinstance(tt.ops[0], ast.Eq) and tt.comparators[0].value == 0) or (isinstance(tt.ops[0], ast.Lt) and tt.comparators[0].value == 1)):
+                    nm = tt.left.args[0].id
+                if nm is None or nm not in local_names or nm in params:
+                    continue
+                n_empty += 1
+                res.ob("%s: raises when the parsed content `%s` is empty" % (short(q) if q.count(".") > 2 else q, nm))
+                res.fail(rule.id, "empty-document-rejected::%s" % q, ctx.loc(q, t),
+                         "%s raises when `%s`, what it has just parsed, holds nothing (`%s`): a document without records is written as exactly that" % (short(q) if q.count(".") > 2 else q, nm, norm(tt)[:40]),
+                         "ProvDocument() (or one that only declares namespaces): serialize, then deserialize raises instead of returning the empty document")
+    res.ob("absolute seeks on a caller's stream: %d; raises on empty parsed content: %d (functions looked at: %d)" % (n_seek, n_empty, len(seen)))
+    return res
+
+
+for _p, _r, _d in (("C16", "C16.R17", "reading from a stream starts where the stream stands; every source kind of an empty document reads back as the empty document"),
+                   ("C07", "C07.R16", "the RDF reader reads what the writer wrote, from where it was written, including the document without records"),
+                   ("C01", "C01.R21", "the JSON reader accepts the JSON of an empty document and reads from the stream's current position"),
+                   ("C02", "C02.R22", "the XML reader accepts the XML of an empty document and reads from the stream's current position")):
+    RULES.setdefault(_p, []).append(Rule(_r, "readers consume their source from its current position and accept the empty document", 1, reader_manners_rule, "F-PATH", _d))
